@@ -458,7 +458,11 @@ func (d *drv) runEip712(r *Rng, n int) {
 		spec := docSpec{ChainID: chainID, AccNum: rr.U64() >> uint(rr.Intn(64)), Seq: rr.U64() >> uint(rr.Intn(64)), Fee: randCoins(rr), Gas: rr.U64() >> uint(1+rr.Intn(63)),
 			Memo: randText(rr), PubKey: pub, SignMode: signing.SignMode_SIGN_MODE_DIRECT}
 		if rr.Chance(20) {
-			spec.ChainID = fmt.Sprintf("%s_%d-%d", []string{"evermint", "a", "testchain"}[rr.Intn(3)], 1+rr.Intn(1<<30), 1+rr.Intn(9))
+			num := uint64(1 + rr.Intn(1<<30))
+			if rr.Chance(40) { // EIP-155 numbers beyond 32 bits (the domain separator carries the number, the Tx message the string)
+				num = 1<<32 + rr.U64()>>uint(2+rr.Intn(30))
+			}
+			spec.ChainID = fmt.Sprintf("%s_%d-%d", []string{"evermint", "a", "testchain"}[rr.Intn(3)], num, 1+rr.Intn(9))
 		}
 		nm := 1
 		if rr.Chance(35) {
